@@ -33,7 +33,7 @@ fn native_misc_registry() -> Vec<(&'static str, fn(&mut crate::src::EnumSrc))> {
         ("nschema_bitvec", (|s: &mut crate::src::EnumSrc| crate::native_misc::schema_bitvec(s)) as fn(&mut crate::src::EnumSrc)),
         // n(nnalgebra, "C01,C02,C04", "Serialize/Deserialize/Packed for nalgebra::Isometry3, Point3, Vector3; Vec / array bulk paths over them; derive for a repr(C) struct holding an Isometry3", "5 rotations (incl. ones whose quaternion norm is not exactly 1.0) x small-scope translations");
         ("nnalgebra", (|s: &mut crate::src::EnumSrc| crate::native_lib::nalgebra_types(s)) as fn(&mut crate::src::EnumSrc)),
-        // n(ncrypto_stream, "C08,C01", "CryptoWriter::new; CryptoWriter::write; CryptoWriter::flush; Drop for CryptoWriter; CryptoReader::new; CryptoReader::read (real ring)", "payload lengths 0..230000 (around the 100000-byte chunk size), 4 write-piece sizes; inner reader chunk sizes 1..4096 x 5 Interrupted patterns x 4 read sizes; reader/writer failure at 7-9 offsets; short-writing inner writer");
+        // n(ncrypto_stream, "C08,C01,C07,C14", "CryptoWriter::new; CryptoWriter::write; CryptoWriter::flush; Drop for CryptoWriter; CryptoReader::new; CryptoReader::read (real ring)", "payload lengths 0..230000 (around the 100000-byte chunk size), 4 write-piece sizes; inner reader chunk sizes 1..4096 x 5 Interrupted patterns x 4 read sizes; reader/writer failure at 7-9 offsets; short-writing inner writer; inner writer whose flush fails; stream cut at every chunk boundary");
         ("ncrypto_stream", (|s: &mut crate::src::EnumSrc| crate::native_crypto::crypto_stream(s)) as fn(&mut crate::src::EnumSrc)),
         // n(ncompressed_container, "C01,C07", "savefile::save_compressed; Serializer::save_impl (bzip2 branch); Deserializer::load_impl (bzip2 branch)", "small-scope documents; every cut for files <= 160 bytes, else 12 cut points");
         ("ncompressed_container", (|s: &mut crate::src::EnumSrc| crate::native_crypto::compressed_container(s)) as fn(&mut crate::src::EnumSrc)),
@@ -76,13 +76,15 @@ fn native_misc_registry0() -> Vec<(&'static str, fn(&mut crate::src::EnumSrc))> 
         ("nabi_more", (|s: &mut crate::src::EnumSrc| crate::native_abi::abi_more(s)) as fn(&mut crate::src::EnumSrc)),
         // n(nabi_nested, "C09,C10", "savefile_abi_exportable output for Box<dyn Trait> arguments and returns (nested connections, get_definition of nested traits at the negotiated version); AbiConnection::analyze_and_create (roles of caller and implementation definitions); Drop for AbiConnection; abi_entry_light panic path", "3 caller/implementation version combinations (older caller with newer implementation is refused by design for an extended callback interface) x 3 scenarios x small-scope values");
         ("nabi_nested", (|s: &mut crate::src::EnumSrc| crate::native_abi::abi_nested(s)) as fn(&mut crate::src::EnumSrc)),
+        // n(nlayout_types, "C11", "Schema::layout_compatible on schemas produced by derive WithSchema (field offsets, AbiRemoved placeholders in enum variants) and by WithSchema for Box<[T]> / Arc<[T]> / Vec<T>", "5 pairs of concrete types that differ in memory layout");
+        ("nlayout_types", (|s: &mut crate::src::EnumSrc| crate::native_abi::layout_type_pairs(s)) as fn(&mut crate::src::EnumSrc)),
         // n(nabi_wide, "C09,C11", "AbiConnection::analyze_and_create (by-reference mask); savefile_abi_exportable output for a 40-argument method", "one 40-argument method; one argument and one string length vary");
         ("nabi_wide", (|s: &mut crate::src::EnumSrc| crate::native_abi::abi_wide(s)) as fn(&mut crate::src::EnumSrc)),
         // n(nabi_incompatible, "C10", "AbiConnection::analyze_and_create (argument count, argument type, return type checks)", "3 incompatible signature pairs and the identical pair");
         ("nabi_incompatible", (|s: &mut crate::src::EnumSrc| crate::native_abi::abi_incompatible(s)) as fn(&mut crate::src::EnumSrc)),
         // n(nschemacodec, "C13", "Serialize for Schema/SchemaStruct/SchemaEnum/Variant/Field/SchemaArray/SchemaPrimitive; Deserialize for the same; new_schema_deserializer", "schema trees of depth <= 3 built from 8 leaf kinds, 12 inner kinds, <= 2 fields, <= 2 variants, layout annotations present/absent; library formats 0, 1, 2");
         ("nschemacodec", (|s: &mut crate::src::EnumSrc| crate::native_schemacodec::schema_codec(s)) as fn(&mut crate::src::EnumSrc)),
-        // n(nledger_files, "C15", "savefile_abi::verify_compatiblity; AbiTraitDefinition::verify_backward_compatible; verify_compatible_with_old_impl; Serialize/Deserialize for AbiTraitDefinition (ledger files); diff_schema", "12 scenarios of 2-4 successive runs over 9 editions of one interface (unchanged, new versioned field, new method, boxed-future return + closure argument, changed argument count / argument type / return type, removed method, break of the newest recorded version only) on a real temporary directory");
+        // n(nledger_files, "C15", "savefile_abi::verify_compatiblity; AbiTraitDefinition::verify_backward_compatible; verify_compatible_with_old_impl; Serialize/Deserialize for AbiTraitDefinition (ledger files); diff_schema", "15 scenarios of 2-4 successive runs over 12 editions of one interface (unchanged, with Sync / Send / Send+Sync bounds, new versioned field, new method, boxed-future return + closure argument, changed argument count / argument type / return type, removed method, break of the newest recorded version only) on a real temporary directory");
         ("nledger_files", (|s: &mut crate::src::EnumSrc| crate::native_abi::ledger_files(s)) as fn(&mut crate::src::EnumSrc)),
         // n(nmal_library, "C06", "Deserialize for String, Vec<T>, HashMap, BTreeMap, Option, VecDeque, BinaryHeap, BTreeSet, HashSet, Box<[T]>, Arc<[T]>, Arc<str>, ArrayVec, SmallVec, BitVec, tuples, char, bool, Result, IndexMap, IndexSet, IpAddr, Duration; Deserializer::read_string; regular_deserialize_vec", "35 valid encodings of small values, each with: every single-byte replacement by one of 6 values (length-like 8-byte fields: low byte only, 5 values), every truncation, 1-2 appended bytes");
         ("nmal_library", (|s: &mut crate::src::EnumSrc| crate::native_misc::malformed_library(s)) as fn(&mut crate::src::EnumSrc)),
